@@ -1,14 +1,17 @@
 (* C13 — Tree insertion yields valid trees keeping all original nodes and the new tree.
    Only statements + `exact`; proofs are in Grammar/InsertFacts.v and (proof extension)
-   Grammar/Insert{Direct,Track,Self,Ctx,SelfAssert}More.v.  Model: Grammar/Insert.v
+   Grammar/Insert{Direct,Track,Self,Ctx,SelfAssert,Total}More.v.  Model: Grammar/Insert.v
    (insert_tree and all its helpers of isla/existential_helpers.py; the grammar graph's answers
    are parameters `chain` / `pb`, fresh ids are 0).
 
    FULL STATEMENT (false for the faithful model, see C13_context_refuted):
-     forall g chain pb maxn m ins host rs t,
-       closed_g g -> chain_ok chain -> pb_ok pb -> wf_tree g host -> wf_tree g ins ->
-       insert_tree g chain pb maxn m ins host = Ok rs /\ (In t rs -> inserted g host ins t)
-   i.e. for every method mask no assertion fires and every result satisfies `inserted`.
+     forall g chain pb maxn m ins host,
+       closed_g g -> chain_ok chain -> chain_start chain -> chain_conn g chain -> pb_ok pb ->
+       wf_tree g host -> wf_tree g ins -> uniq_ids host ins ->
+       exists rs, insert_tree g chain pb maxn m ins host = Ok rs /\ forall t, In t rs -> inserted g host ins t
+   i.e. for every method mask no assertion fires, no other exception escapes and every result
+   satisfies `inserted`.  PROVED for every mask without CONTEXT_ADDITION (C13_insert_tree_full_noctx);
+   with CONTEXT_ADDITION proved with `inserted_lossy` in place of `inserted` (C13_insert_tree_full_lossy).
 
    What is proved for ALL inputs (all grammars, oracles, trees; no size bounds):
      - C13_insertedb_spec / C13_inserted_lossyb_spec
@@ -42,11 +45,28 @@
                                compute_direct_embeddings, compute_self_embeddings, insert_trees, connect_trees,
                                path_to_tree, add_to_result) can fire: the outcome is never AssertionError
                                (oracle: chain_ok, chain_start, pb_ok; unique ids not needed)
-   Still partial (stated, unproved; covered by the correspondence only): assertion-freedom for masks
-   containing CONTEXT_ADDITION (compute_context_additions re-inserts host subtrees into a tree that
-   already contains ins); that the model's other exceptions (IndexErr of `[...][0]` / get_subtree,
-   StopIter of `next(...)`) cannot occur for SELF_EMBEDDING (proved only for DIRECT_EMBEDDING with chain_conn). *)
-From ISLA Require Import Grammar Insert InsertFacts InsertDirectMore InsertTrackMore InsertSelfMore InsertCtxMore InsertSelfAssertMore.
+   Third pass (Grammar/InsertTotalMore.v) — the two remaining gaps are closed:
+     - C13_insert_tree_no_assert   for EVERY mask (also with CONTEXT_ADDITION) no assertion of insert_tree,
+                               compute_direct_embeddings, compute_self_embeddings, compute_context_additions,
+                               insert_trees, connect_trees, path_to_tree, add_to_result can fire
+     - C13_insert_tree_outcomes    for EVERY mask the outcome is a list, or (only when DIRECT_EMBEDDING is in the mask)
+                               the IndexError of wrap_in_tree_starting_in for a chain oracle naming unconnected
+                               symbols; no IndexError of get_subtree/replace_path on partial results, no
+                               StopIteration of `next(...)` in insert_trees
+     - C13_insert_tree_total       with chain_conn (needed only if DIRECT_EMBEDDING is in the mask;
+                               C13_chain_conn_needed) the call returns a list, for EVERY mask
+     - C13_insert_tree_full_noctx  the FULL STATEMENT under the guard K_ctx m = false: the call returns a list and
+                               every element is `inserted`
+     - C13_insert_tree_full_lossy  every mask: the call returns a list and every element is `inserted_lossy`
+     - C13_insert_trees_all_present  n-item generalisation of the two-item lemma: every tree handed to insert_trees
+                               that has a possible insertion point is a subtree of EVERY returned tree
+     - C13_insert_tree_total_tbl   the same totality from the executable premise check `oracle_okb` that the
+                               harness evaluates on the real GrammarGraph tables of each grammar
+   Nothing of the full statement is left unproved except what is FALSE (K_ctx, recorded finding): with
+   CONTEXT_ADDITION the results are `inserted_lossy`, not `inserted`.  Premises that remain (all evaluated by the
+   check on the real graph tables / generated inputs): closed_g, chain_ok, chain_start, chain_conn, pb_ok,
+   wf_tree host / ins, uniq_ids. *)
+From ISLA Require Import Grammar Insert InsertFacts InsertDirectMore InsertTrackMore InsertSelfMore InsertCtxMore InsertSelfAssertMore InsertTotalMore.
 From Coq Require Import List.
 Import ListNotations.
 
@@ -275,3 +295,102 @@ Print Assumptions C13_insert_tree_noctx_no_assert.
 Example C13_pb_ok_satisfiable : pb_ok ex_pb.
 Proof. exact ex_pb_ok. Qed.
 Print Assumptions C13_pb_ok_satisfiable.
+
+(* ================= proof extension, third pass (Grammar/InsertTotalMore.v) ================= *)
+
+(* --- (1) assertion-freedom for EVERY method mask, CONTEXT_ADDITION included *)
+Theorem C13_insert_tree_no_assert : forall g chain pb maxn m ins host,
+  closed_g g -> chain_ok chain -> chain_start chain -> pb_ok pb ->
+  wf_tree g host -> wf_tree g ins ->
+  insert_tree g chain pb maxn m ins host <> Raise AssertErr.
+Proof. exact insert_tree_no_assert. Qed.
+Print Assumptions C13_insert_tree_no_assert.
+
+(* --- (2) no other exception either.  Without chain_conn the only possible exception is the
+   IndexError of wrap_in_tree_starting_in (`[...][0]`), and only if DIRECT_EMBEDDING is in the mask:
+   get_subtree(insertion_path) on partial results of insert_trees cannot fail and `next(...)` never
+   raises StopIteration. *)
+Theorem C13_insert_tree_outcomes : forall g chain pb maxn m ins host,
+  closed_g g -> chain_ok chain -> chain_start chain -> pb_ok pb ->
+  wf_tree g host -> wf_tree g ins ->
+  (exists rs, insert_tree g chain pb maxn m ins host = Ok rs) \/
+  (has_method m DIRECT = true /\ insert_tree g chain pb maxn m ins host = Raise IndexErr).
+Proof. exact insert_tree_outcomes. Qed.
+Print Assumptions C13_insert_tree_outcomes.
+
+Theorem C13_insert_tree_total : forall g chain pb maxn m ins host,
+  closed_g g -> chain_ok chain -> chain_start chain ->
+  (has_method m DIRECT = true -> chain_conn g chain) -> pb_ok pb ->
+  wf_tree g host -> wf_tree g ins ->
+  exists rs, insert_tree g chain pb maxn m ins host = Ok rs.
+Proof. exact insert_tree_total. Qed.
+Print Assumptions C13_insert_tree_total.
+
+(* chain_conn is necessary for masks with DIRECT_EMBEDDING: an oracle satisfying chain_ok and
+   chain_start that names two unconnected symbols (model-level witness; the real GrammarGraph
+   satisfies chain_conn, see the oracle check of the harness) *)
+Example C13_chain_conn_needed :
+  chain_ok jump_chain /\ chain_start jump_chain /\
+  insert_tree ex_g jump_chain ex_pb 50 DIRECT (Node s8 5 true []) (Node s0 2 true []) = Raise IndexErr.
+Proof. exact chain_conn_needed. Qed.
+Print Assumptions C13_chain_conn_needed.
+
+(* the FULL STATEMENT of the header, guarded by the class of the open finding *)
+Theorem C13_insert_tree_full_noctx : forall g chain pb maxn m ins host,
+  closed_g g -> chain_ok chain -> chain_start chain ->
+  (has_method m DIRECT = true -> chain_conn g chain) -> pb_ok pb ->
+  wf_tree g host -> wf_tree g ins -> uniq_ids host ins -> K_ctx m = false ->
+  exists rs, insert_tree g chain pb maxn m ins host = Ok rs /\
+             forall t, In t rs -> inserted g host ins t.
+Proof. exact insert_tree_full_noctx. Qed.
+Print Assumptions C13_insert_tree_full_noctx.
+
+(* every mask: total, and every result keeps all host nodes and the root of ins *)
+Theorem C13_insert_tree_full_lossy : forall g chain pb maxn m ins host,
+  closed_g g -> chain_ok chain -> chain_start chain ->
+  (has_method m DIRECT = true -> chain_conn g chain) -> pb_ok pb ->
+  wf_tree g host -> wf_tree g ins -> uniq_ids host ins ->
+  exists rs, insert_tree g chain pb maxn m ins host = Ok rs /\
+             forall t, In t rs -> inserted_lossy g host ins t.
+Proof. exact insert_tree_full_lossy. Qed.
+Print Assumptions C13_insert_tree_full_lossy.
+
+Example C13_total_hyps_satisfiable :
+  closed_g ex_g /\ chain_ok ex_chain /\ chain_start ex_chain /\ chain_conn ex_g ex_chain /\
+  pb_ok ex_pb /\ wf_tree ex_g ex_host /\ wf_tree ex_g ex_ins /\ uniq_ids ex_host ex_ins.
+Proof. exact total_hyps_satisfiable. Qed.
+Print Assumptions C13_total_hyps_satisfiable.
+
+Example C13_total_nonvacuous :
+  exists rs, insert_tree ex_g ex_chain ex_pb 50 7 ex_ins ex_host = Ok rs /\ 3 <= length rs.
+Proof. exact total_nonvacuous. Qed.
+Print Assumptions C13_total_nonvacuous.
+
+(* --- the n-item generalisation of the two-item lemma: insert_trees "really inserts" every tree
+   that has a possible insertion point (simple_root: the root is a nonterminal or childless —
+   true of every valid derivation tree) *)
+Theorem C13_insert_trees_all_present : forall g pb reach maxn ts into rs it t,
+  Forall (fun x => is_nt (lbl x) = true \/ kids x = []) ts ->
+  insert_trees g pb reach maxn ts into = Ok rs -> In it rs ->
+  In t ts -> pips reach into t <> [] ->
+  exists x, subtree it x = Some t.
+Proof. exact insert_trees_all_present. Qed.
+Print Assumptions C13_insert_trees_all_present.
+
+(* --- totality from the executable premise check evaluated by the harness on the real graph tables *)
+Theorem C13_oracle_okb_def : forall g ct pt,
+  oracle_okb g ct pt =
+  (closed_gb g && chain_tblb ct && chain_start_tblb ct && forallb (fun e => linkedb g (snd e)) ct
+   && pb_ok_tblb pt)%bool.
+Proof. exact (fun g ct pt => eq_refl). Qed.
+Print Assumptions C13_oracle_okb_def.
+
+Theorem C13_insert_tree_total_tbl : forall g ct pt maxn m ins host,
+  oracle_okb g ct pt = true -> wf_treeb g host = true -> wf_treeb g ins = true ->
+  exists rs, insert_tree g (chain_of_tbl ct) (lookup2 pt []) maxn m ins host = Ok rs.
+Proof. exact insert_tree_total_tbl. Qed.
+Print Assumptions C13_insert_tree_total_tbl.
+
+Example C13_oracle_okb_ex : oracle_okb ex_g ex_chain_tbl ex_pb_tbl = true.
+Proof. exact oracle_okb_ex. Qed.
+Print Assumptions C13_oracle_okb_ex.
